@@ -22,7 +22,7 @@ def search_counterexample(idx, lem, seed, n=600):
     def lit(k, v):
         return '(ofb32 %d)' % v if k == 'f32' else '(ofb64 %d)' % v if k == 'f64' else ('true' if v else 'false') if k == 'bool' else '(%d)' % v
     binders = core.binders(lem.vars)
-    imports = 'Definition cx_l (O:Ops) %s := %s.\nDefinition cx_r (O:Ops) %s := %s.\n' % (binders, lem.lhs, binders, lem.rhs)
+    imports = 'Definition cx_l (O:Ops) %s : res (val O) := %s.\nDefinition cx_r (O:Ops) %s : res (val O) := %s.\n' % (binders, lem.lhs, binders, lem.rhs)
     terms = ['out (cx_l IEEEr %s) ++ [-777] ++ out (cx_r IEEEr %s)' % (' '.join(lit(k, v) for (_, k), v in zip(lem.vars, a)), ' '.join(lit(k, v) for (_, k), v in zip(lem.vars, a))) for a in assigns]
     res, errs = core.eval_model(terms, 'search_' + lem.name, imports=imports, chunk=100)
     for a, r in zip(assigns, res):
@@ -30,6 +30,17 @@ def search_counterexample(idx, lem, seed, n=600):
         k = r.index(-777); l, rr = r[:k], r[k + 1:]
         if canon_words(l) != canon_words(rr): return {'assignment': {n: ('%#x' % v if kk in ('f32', 'f64') else v) for (n, kk), v in zip(lem.vars, a)}, 'model_lhs': l, 'spec_rhs': rr}, errs
     return None, errs
+
+def confirm_on_crate(idx, lem, cx):
+    """replay the failing assignment on the real crate through the driver"""
+    m = lem.meta; cfg = m.get('cfg'); did = m.get('did')
+    if not cfg or not did: return {'crate_replay': 'no public entry point for this function'}
+    f = next(x for x in idx.fns(cfg) if x['i'] == did)
+    tys = ([f['self']] if f['has_self'] else []) + [p[1] for p in f['params']]
+    vals = iter([int(v, 16) if isinstance(v, str) else int(v) for v in cx['assignment'].values()])
+    words = [w for t in tys for w in core.words_from_values(idx.structs(cfg), idx.enums(cfg), t, vals)]
+    out = core.run_driver(core.build_driver(cfg), ['%d %s' % (did, ' '.join('%x' % w for w in words))])
+    return {'cfg': cfg, 'did': did, 'function': f['key'], 'input_words': ['%x' % w for w in words], 'impl_result': out[0] if out else None, 'expected_by_spec': cx['spec_rhs']}
 
 def canon_words(ws):
     return ws  # exact comparison: lemma sides are compared bit for bit (both computed by the same primitives)
@@ -45,7 +56,10 @@ def report(pid, tier, seed, t0, res):
         try: cx, errs = search_counterexample(idx, lem, seed)
         except Exception as e: errs = ['search failed: %r' % e]
         obj = {'kind': 'counterexample' if cx else 'unproved', 'theorem': lem.name, 'statement': lem.statement()[:2000], 'meta': lem.meta, 'coq_error': err[-600:], 'how_found': 'lemma failed; both sides evaluated with the IEEE/Z instance under vm_compute on %s candidate inputs' % ('600'), 'search_errors': errs[:2]}
-        if cx: obj.update(cx)
+        if cx:
+            obj.update(cx)
+            try: obj.update(confirm_on_crate(idx, lem, cx))
+            except Exception as e: obj['crate_replay_error'] = repr(e)[:300]
         viol.append((obj, cx is not None))
     for lem, err in res['failures'][8:]:
         viol.append(({'kind': 'unproved', 'theorem': lem.name, 'statement': lem.statement()[:2000], 'meta': lem.meta, 'coq_error': err[-600:], 'how_found': 'lemma failed (search limited to the first 8 failing lemmas)'}, False))
